@@ -4,6 +4,7 @@ import ExprModel.Proofs.ParserMono
 import ExprModel.Proofs.ParserFuel
 import ExprModel.Proofs.ParserCanonAll2
 import ExprModel.Proofs.ParserErase5
+import ExprModel.Proofs.ParseLayout2
 import ExprModel.Syntax.ParserNum
 import ExprModel.Props.C12
 /-
@@ -217,6 +218,55 @@ theorem parse_erase {cfg : Cfg} {sh : NumShow} (hi : ImageSetting cfg) (ts0 : Li
   | error e => rw [hp] at h; cases h
   | outOfFuel => rw [hp] at h; cases h
 
+/-! ### White space never changes the tree (text level)
+
+The theorems above are about token lists.  Composed with the lexer model of C12 (`Lex.lex`, with the tables
+`Gen.lexTables` regenerated from the lexer source and any ASCII-exact classification `cc` of runes): -/
+
+/-- **Locations do not matter to the parser**: token lists with the same kinds and values are accepted together
+    and give trees that differ only in locations (`Node.eraseLoc`). -/
+theorem parse_locations_irrelevant (cfg : Cfg) {ts ts' : List Token} (h : noLocs ts = noLocs ts') {t : Node}
+    (ht : parse cfg ts = .ok t) : ∃ t', parse cfg ts' = .ok t' ∧ t'.eraseLoc = t.eraseLoc :=
+  parse_same_text cfg h ht
+
+/-- **whitespace_invariance.**  Print a canonical tree `t` with any redundant parentheses; write the `i`-th token
+    in its canonical spelling `tokRaw` (identifiers, keywords, operators and brackets as they are, decimal
+    integers, string literals in double quotes) after the white space `gaps[i]`, and `trail` at the end —
+    any runs of `IsSpace` runes, including none, as long as neighbouring tokens do not fuse (`NoFuse`: after an
+    identifier, keyword or number no alphanumeric rune (nor `.` after a number); after `?` no `.`; after `?.` no
+    `?`/`.`; after `.` no `.`/digit; after `<`, `>`, `!`, `*` none of `& | = *`; after `not` not blanks-`in`-blank;
+    after `not in` a blank or the end).  Then `lex` yields the printed tokens up to locations and `parse` yields
+    `t` up to locations.  Hypothesis `hprint`: every printed token has a proved spelling (`Printable`: all but
+    float literals and identifiers that collide with keywords). -/
+theorem whitespace_invariance {cfg : Cfg} {sh : NumShow} (hs : Setting cfg sh) (t : Node) (hc : canon cfg 0 t = true)
+    (pc : ParenChoice) (cc : Lex.CharClass) (hcc : cc.AsciiExact) (gaps : List (List Char)) (trail : List Char)
+    (hlen : (pr cfg sh pc [] 0 (eofAt {}) t).length = gaps.length)
+    (hprint : ∀ x ∈ pr cfg sh pc [] 0 (eofAt {}) t, Printable cc x)
+    (hsep : NoFuse cc (pr cfg sh pc [] 0 (eofAt {}) t) gaps trail) :
+    ∃ toks t', Lex.lex cc Gen.lexTables
+        (String.ofList (Lex.renderItems (layoutItems (pr cfg sh pc [] 0 (eofAt {}) t) gaps) trail)) = .ok toks ∧
+      noLocs toks = noLocs (printEof cfg sh pc {} t) ∧
+      parse cfg toks = .ok t' ∧ t'.eraseLoc = t.eraseLoc := by
+  rw [C12.tables_pinned]
+  exact lex_parse_text cfg sh hs.hyp t hc pc cc hcc gaps trail hlen hprint hsep
+
+/-- What is left of the text-level statement: (1) float literals (their spelling `showFloat` is a parameter of
+    the printer; C12's `float_lexes` covers the lexer side for well-formed decimal/exponent spellings alone in
+    the source, not yet followed by other text); (2) the *syntactic* reference rule of the harness
+    (`needSpace a b`: a blank is needed between two neighbouring spellings) as a sufficient condition for the
+    semantic condition `NoFuse` used above.  Stated here for (2): if every gap is non-empty wherever the
+    spellings of the two neighbours would fuse, the layout does not fuse. -/
+def layout_rule_goal : Prop :=
+  ∀ (cc : Lex.CharClass), cc.AsciiExact → (∀ x, cc.isSpace x = true → cc.isAlphaNumeric x = false) →
+    ∀ (ts : List Token) (gaps : List (List Char)) (trail : List Char), ts.length = gaps.length →
+      (∀ x ∈ ts, Printable cc x) → (∀ g ∈ gaps, ∀ c ∈ g, cc.isSpace c = true) → (∀ c ∈ trail, cc.isSpace c = true) →
+      (∀ i (hi : i + 1 < ts.length), gaps[i+1]! = [] →
+        tokOk cc ts[i] (tokRaw ts[i+1] ++ [' '])) →
+      (∀ i (hi : i < ts.length), ts[i].value = "not in" → ts[i].kind = .operator →
+        ((gaps ++ [trail])[i+1]!).head? = some ' ' ∨ (i + 1 = ts.length ∧ trail = [])) →
+      (∀ i (hi : i + 1 < ts.length), ts[i].value = "not" → ts[i].kind = .operator → tokRaw ts[i+1] ≠ "in".toList) →
+      NoFuse cc ts gaps trail
+
 /-! ### Non-vacuity and the witness of the one deviation found -/
 
 /-- a concrete setting: decimal integers, one float spelling -/
@@ -327,6 +377,79 @@ theorem unary_setting : Setting unaryCfg unaryShow ∧ ImageSetting unaryCfg := 
 example : unaryShow.showInt 3 = "iii" ∧ unaryShow.showFloat 2 = "fii" ∧
     unaryShow.showFloat 2 ≠ unaryShow.showFloat 3 ∧ (unaryNum "fii").isSome = true ∧ (unaryNum "fx").isSome = false := by
   decide +kernel
+
+/-! #### a concrete instance of `whitespace_invariance`: `a?.b+not<TAB>c<NEWLINE>` -/
+
+def wsTree : Node :=
+  .binary {} "+" (.prop {} (.ident {} "a" true) "b" true) (.unary {} "not" (.ident {} "c" false))
+
+def wsGaps : List (List Char) := [[], [], [], [], [], ['\t']]
+
+private theorem wsTokens : pr unaryCfg unaryShow (fun _ => 0) [] 0 (eofAt {}) wsTree =
+    [tok .identifier "a", tok .operator "?.", tok .identifier "b", tok .operator "+", tok .operator "not",
+     tok .identifier "c"] := by decide +kernel
+
+example : String.ofList (Lex.renderItems (layoutItems (pr unaryCfg unaryShow (fun _ => 0) [] 0 (eofAt {}) wsTree)
+    wsGaps) ['\n']) = "a?.b+not\tc\n" := by decide +kernel
+
+private theorem printable_ident1 (c : Char) (h : Lex.CharClass.asciiLetter c = true)
+    (hk : Lex.LexTables.std.kwOps.contains (String.ofList [c]) = false) :
+    Printable Lex.CharClass.ascii (tok .identifier (String.ofList [c])) := by
+  refine ⟨c, [], by simp [tok], Lex.idStart_ascii (Lex.CharClass.ofRanges_asciiExact [] [] []) (Or.inl h),
+    by simp, ?_, hk⟩
+  intro he
+  have := congrArg String.length he
+  simp [tok] at this
+  exact absurd this (by decide)
+
+/-- the hypotheses of `whitespace_invariance` are satisfiable with tight and unusual white space -/
+example : ∃ toks t', Lex.lex Lex.CharClass.ascii Gen.lexTables "a?.b+not\tc\n" = .ok toks ∧
+    parse unaryCfg toks = .ok t' ∧ t'.eraseLoc = wsTree.eraseLoc := by
+  have hcc := Lex.CharClass.ofRanges_asciiExact [] [] []
+  have h := whitespace_invariance unary_setting.1 wsTree (by decide +kernel) (fun _ => 0) Lex.CharClass.ascii hcc
+    wsGaps ['\n'] (by rw [wsTokens]; rfl)
+    (by
+      rw [wsTokens]
+      intro x hx
+      simp only [List.mem_cons, List.mem_nil_iff, or_false] at hx
+      rcases hx with rfl | rfl | rfl | rfl | rfl | rfl
+      · exact printable_ident1 'a' (by decide) (by decide)
+      · show "?." ∈ opValues; decide
+      · exact printable_ident1 'b' (by decide) (by decide)
+      · show "+" ∈ opValues; decide
+      · show "not" ∈ opValues; decide
+      · exact printable_ident1 'c' (by decide) (by decide))
+    (by
+      rw [wsTokens]
+      refine ⟨by simp, ?_, by simp, ?_, by simp, ?_, by simp, ?_, by simp, ?_, (by intro c hc'; simp [wsGaps] at hc'; subst hc'; decide), ?_, ?_⟩
+      · -- `a` then `?.`
+        intro x hx; simp [layoutItems, Lex.renderItems, tokRaw, tok] at hx; subst hx; decide
+      · -- `?.` then `b`
+        show ∀ c, _ → _
+        intro c hc'; simp [layoutItems, Lex.renderItems, tokRaw, tok, wsGaps] at hc'; subst hc'; decide
+      · intro x hx; simp [layoutItems, Lex.renderItems, tokRaw, tok, wsGaps] at hx; subst hx; decide
+      · trivial
+      · -- `not` then TAB `c`
+        show Lex.NotFollow _ _
+        refine ⟨?_, ?_⟩
+        · intro x hx; simp [layoutItems, Lex.renderItems, tokRaw, tok, wsGaps] at hx; subst hx; decide
+        · rintro ⟨mid, r', hm, he, _⟩
+          simp [layoutItems, Lex.renderItems, tokRaw, tok, wsGaps] at he
+          cases mid with
+          | nil => simp at he
+          | cons c cs =>
+            simp at he
+            have := hm c (by simp)
+            rw [← he.1] at this
+            exact absurd this (by decide)
+      · intro x hx; simp [layoutItems, Lex.renderItems, tokRaw, tok, wsGaps] at hx; subst hx; decide
+      · intro c hc'; simp at hc'; subst hc'; decide)
+  obtain ⟨toks, t', h1, _, h3, h4⟩ := h
+  refine ⟨toks, t', ?_, h3, h4⟩
+  have : String.ofList (Lex.renderItems (layoutItems (pr unaryCfg unaryShow (fun _ => 0) [] 0 (eofAt {}) wsTree)
+      wsGaps) ['\n']) = "a?.b+not\tc\n" := by decide +kernel
+  rw [this] at h1
+  exact h1
 
 def identNs : Outcome → Option Bool
   | .ok (.ident _ _ ns) => some ns
